@@ -29,7 +29,7 @@ NAME_CLASSES = {
     'nl': ('a\nb',),
 }
 
-ATTR_VALUES = (None, True, False, 0, 7, -3, 2.5, -0.25, 100.0, 'x', 'hello world', 'ünï', [], [1, 'a'], [True, [2]],
+ATTR_VALUES = (None, True, False, 0, 7, -3, 2.5, -0.25, 100.0, 'x', 'hello world', 'ünï', [], [1, 'a'], [True, [2, 3]],
                {'k': 1}, {'k': {'j': 'q'}}, '', 'it\'s', 'a.b', 1e-07, 12345678901234567890, [None], {'a b': 2.5})
 
 FTYPES = ('Integer', 'Real', 'String')
